@@ -179,3 +179,48 @@ def rule_delguard(ctx, prop: str) -> RuleResult:
                 res.add(Finding("DELGUARD", S, n.lineno, qn, f"{n.func.attr}<-Check", f"{qn} removes code on a path that never passed a Check_* of the condition/bounds"))
     res.floor = 8
     return res
+
+
+def rule_modguard(ctx, prop: str) -> RuleResult:
+    """Index normalisation drops `/ c` or `% c` only behind the two-sided range fact
+    0 <= e < c (floor semantics): a one-sided test is not enough for either operator."""
+    ix = ctx.ix
+    res = RuleResult("MODGUARD")
+    m = ix.module(S)
+    funcs = [f for qn, f in m.funcs.items() if qn.startswith("_DoNormalize.index_start.") and isinstance(f.node, ast.FunctionDef)]
+    if len(funcs) < 4:
+        raise AnalysisError("anchor vanished: nested simplification helpers of _DoNormalize.index_start")
+    n_two = 0
+    for f in funcs:
+        for n in f.body_nodes():
+            if not (isinstance(n, ast.Call) and isinstance(n.func, ast.Attribute)):
+                continue
+            if n.func.attr == "check_expr_bound":
+                res.instances += 1
+                res.nontrivial += 1
+                res.analysed.append(f"{S}:{f.qualname}")
+                res.ob(False)
+                res.add(
+                    Finding("MODGUARD", S, n.lineno, f.qualname, "one-sided:" + ast.unparse(n)[:60],
+                            "a division/modulo is simplified away behind a one-sided range test: with floor semantics `e % c == e` and the splitting of `e / c` need 0 <= e as well as e < c "
+                            "(for i in seq(0,4): x[(i-1) % 4] would become x[i-1])")
+                )
+            if n.func.attr == "check_expr_bounds" and len(n.args) == 5:
+                res.instances += 1
+                res.nontrivial += 1
+                res.analysed.append(f"{S}:{f.qualname}")
+                a = n.args
+                ok = isinstance(a[0], ast.Constant) and a[0].value == 0 and (dotted(a[1]) or "").endswith(".leq") and (dotted(a[3]) or "").endswith(".lt")
+                res.ob(ok)
+                res.sample(f"{f.qualname}: {ast.unparse(n)[:90]}")
+                if ok:
+                    n_two += 1
+                else:
+                    res.add(Finding("MODGUARD", S, n.lineno, f.qualname, "bounds-form", "the range fact justifying the simplification must be 0 <= e < c"))
+    res.instances += 1
+    ok = n_two >= 3
+    res.ob(ok)
+    if not ok:
+        res.add(Finding("MODGUARD", S, funcs[0].lineno, "_DoNormalize.index_start", "two-sided-guards", f"only {n_two} two-sided range guards remain in the div/mod simplifications (3 needed: two in division, one in modulo)"))
+    res.floor = 4
+    return res
